@@ -76,7 +76,7 @@ pub fn parse<'a, T: Iterator<Item = &'a Token>>(
             "\"\"" => "",
             span => &span[1..span.len() - 1],
         }),
-        TokenType::Symbol => Ok(Cell::new_symbol(token.span(text))),
+        TokenType::Symbol => Ok(symbol_from_spelling(token.span(text))),
         TokenType::NumberPrefix | TokenType::Number => parse_number(text, cur, token),
         TokenType::Dot | TokenType::WhiteSpace => {
             Err(Error::UnexpectedToken(token.span(text).into()))
@@ -327,8 +327,53 @@ fn parse_number<'a, T: Iterator<Item = &'a Token>>(
     let span = token.span(text);
     match Number::parse_with_exactness(span, exactness, radix) {
         Some(num) => Ok(Cell::Number(num)),
-        None => Ok(Cell::Symbol(span.to_string())),
+        None => Ok(symbol_from_spelling(span)),
     }
+}
+
+/// Symbol From Spelling
+///
+/// A symbol may be spelled with escapes (e.g. `\x41;` for `A`). Symbols are
+/// interned by name, so a spelling that uses escapes is brought into the one
+/// canonical spelling of its name.
+fn symbol_from_spelling(span: &str) -> Cell {
+    if span.contains('\\') {
+        // a spelling whose escapes cannot be decoded names itself
+        return match parse_string(span) {
+            Ok(Cell::String(name)) => Cell::Symbol(canonical_symbol_name(&name)),
+            _ => Cell::Symbol(canonical_symbol_name(span)),
+        };
+    }
+    Cell::new_symbol(span)
+}
+
+/// Canonical Symbol Name
+///
+/// Symbols are stored under the spelling `write` prints for them. A name the
+/// reader reads back as exactly that symbol is spelled as is; in any other name
+/// the characters that cannot appear at their position in an identifier, and the
+/// escape character itself, are spelled `\x<hex>;`.
+pub fn canonical_symbol_name(name: &str) -> String {
+    if !name.contains('\\') {
+        if let Ok(tokens) = lex::scan(name) {
+            if tokens.len() == 1 && tokens[0].span == (0, name.len()) {
+                let mut cur = tokens.iter().peekable();
+                if let Ok(Cell::Symbol(sym)) = parse(name, &mut cur) {
+                    if sym == name {
+                        return sym;
+                    }
+                }
+            }
+        }
+    }
+    name.char_indices()
+        .map(|(idx, c)| match c {
+            '\\' => format!("\\x{:x};", c as u32),
+            c if idx == 0 && lex::is_initial_identifier(c) => c.to_string(),
+            c if idx > 0 && lex::is_subsequent_identifier(c) => c.to_string(),
+            c => format!("\\x{:x};", c as u32),
+        })
+        .collect::<String>()
 }
 
 /// Parse Macro
